@@ -99,6 +99,15 @@ func parseForwardedIP(s string) net.IP {
 
 // AccessDeniedTCP checks rules on the target for TCP proxy routes.
 func (t *Target) AccessDeniedTCP(c net.Conn) bool {
+	// A TCP connection cannot present credentials, so no authentication
+	// scheme can have accepted them: a route which asks for authentication
+	// is closed to the TCP proxies. Otherwise a tcp+sni listener, which looks
+	// the server name up in the whole routing table, tunnels clients to the
+	// upstream of a password protected https route.
+	if t.AuthScheme != "" {
+		log.Printf("[WARN] route for %s requires auth scheme '%s' which a TCP connection cannot satisfy", t.Service, t.AuthScheme)
+		return true
+	}
 	// Calling RemoteAddr on a proxy-protocol enabled connection may block.
 	// Therefore we explicitly check and bail out early if there are no
 	// rules defined for the target.
